@@ -30,7 +30,7 @@ def strLine (s : Bytes) : String :=
   " CP=" ++ showBool (checkPath s) ++
   " SPV=" ++ (let r := splitPathVersion s; toHex r.1 ++ "," ++ toHex r.2.1 ++ "," ++ showBool r.2.2) ++
   " SV=" ++ showBool (semverIsValid s) ++ " MJ=" ++ toHex (semverMajor s) ++ " BD=" ++ toHex (semverBuild s) ++
-  " PS=" ++ showBool (isPseudo s) ++ " AH=" ++ showBool (allHex s) ++
+  " PS=" ++ showBool (isPseudo s) ++ " PR=" ++ showBool (isPseudoRef s) ++ " AH=" ++ showBool (allHex s) ++
   " DB=" ++ (match decodeBase s with
              | none => "skip"
              | some none => "err"
